@@ -1,8 +1,8 @@
 package node
 
 import (
-	"github.com/LiskHQ/lisk-engine/pkg/blockchain"
 	"fmt"
+	"github.com/LiskHQ/lisk-engine/pkg/blockchain"
 	"testing"
 	"time"
 )
